@@ -13,7 +13,7 @@ import (
 
 // C13 — graceful shutdown is clean from every lifecycle state.
 
-var c13States = []string{"hc-retrying", "rm-waiting", "idle", "consumer-blocked", "save-held", "save-failing", "reb-in-BSS", "reb-after-ASS", "reb-in-delay", "reb-in-BSStart", "reb-after-ARE", "mid-traffic", "end-during-close", "notify-during-close", "signal-after-close", "signal-only", "close-during-reopen-retry"}
+var c13States = []string{"hc-retrying", "rm-waiting", "idle", "consumer-blocked", "save-held", "save-failing", "reb-in-BSS", "reb-after-ASS", "reb-in-delay", "reb-in-BSStart", "reb-after-ARE", "mid-traffic", "end-during-close", "notify-during-close", "signal-after-close", "signal-only", "close-during-reopen-retry", "map-change-at-close"}
 
 type c13Cfg struct {
 	RM, HC, API, Auto bool
@@ -97,6 +97,16 @@ func c13Spec(rng *rand.Rand, state string, c c13Cfg) *SessSpec {
 		h := []string{"BSS", "ASS"}[rng.Intn(2)]
 		sp.Steps = append(sp.Steps, Step{Op: "holdeh", Sel: h}, Step{Op: "closeasync"}, Step{Op: "waitheld", Sel: h},
 			Step{Op: "notify", Sel: "put", N: 1, VB: 2, Ms: 1}, Step{Op: "sleep", Ms: 80}, Step{Op: "releaseeh"})
+	case "map-change-at-close":
+		// the cluster publishes a newer map revision right before Close(); Close() stops the rollback mitigation and is then held
+		// (inside AfterStreamStop, connections still open) longer than the mitigation's map-watch interval: whatever the
+		// mitigation does with the newer map, it polls nothing afterwards and nothing crashes when the connections go
+		sp.RollbackMitigation = true
+		sp.Nodes, sp.Replicas = 2, 1
+		// (the client learns the new revision at its own pace, within about 2.5 s; the mitigation looks every 2 s: the Close()
+		// is placed at a seed-chosen point of that window)
+		sp.RMIntervalMs, sp.RMWatchMs = 20, 2000
+		sp.Steps = append(sp.Steps, Step{Op: "bumpconfig", Sel: "nowait"}, Step{Op: "sleep", Ms: 200 + rng.Intn(2300)}, Step{Op: "holdeh", Sel: "ASS"}, Step{Op: "closeasync"}, Step{Op: "waitheld", Sel: "ASS"}, Step{Op: "sleep", Ms: 2300}, Step{Op: "releaseeh"})
 	case "reb-in-BSS":
 		sp.Steps = append(sp.Steps, Step{Op: "holdeh", Sel: "BSS"}, reb, Step{Op: "waitheld", Sel: "BSS"}, Step{Op: "closeasync"}, Step{Op: "sleep", Ms: 30}, Step{Op: "releaseeh"})
 	case "reb-after-ASS":
@@ -109,6 +119,9 @@ func c13Spec(rng *rand.Rand, state string, c c13Cfg) *SessSpec {
 		sp.Steps = append(sp.Steps, reb, Step{Op: "waiteh", Sel: "ARE"})
 	}
 	sp.Steps = append(sp.Steps, Step{Op: "waitclose", Ms: 20000})
+	if state == "map-change-at-close" {
+		sp.LingerMs = 800
+	}
 	if state == "close-during-reopen-retry" {
 		// the library's retry loop runs for up to five seconds: whatever is still alive after Close() shows in that time
 		sp.LingerMs = 5200
